@@ -640,9 +640,12 @@ class RigidMotion:
             kw2 = dict(kw, a=(a @ R.T).tolist(), pos=(pos @ R.T).tolist())
             e1, _, _ = _energies(kw2, seed=seed)
         elif self.kind == "permutation":
+            # two species that both carry s and p projectors (species-dependent radial parts of the non-local projectors)
+            kw = dict(kw, atom=["C", "O", "C"])
+            e0, at0, W0 = _energies(kw, seed=seed)
             p = rng.permutation(3)
-            while list(p) == [0, 1, 2]:
-                p = rng.permutation(3)
+            while list(p) == [0, 1, 2] or (seed % 100 == 0 and kw["atom"][p[0]] == kw["atom"][0]):
+                p = rng.permutation(3)  # the first instance of every run lists another species first
             kw2 = dict(kw, atom=[kw["atom"][i] for i in p], pos=pos[p].tolist())
             e1, _, _ = _energies(kw2, seed=seed)
         elif self.kind == "lattice_translation_single_atom":
@@ -684,7 +687,7 @@ class RigidMotion:
                 wit = dict(kind=self.kind, seed=seed * 100 + k)
                 return Result(REFUTED, backend="native", witness=wit, replayed=True, replay_info=info,
                               detail=f"energy component {info['component']} changes by {err:.2e} Eh under a {self.kind.replace('_', ' ')}")
-        return Result(BOUNDED_OK, backend="native", detail=f"bounded: {n} random {self.kind.replace('_', ' ')}(s) of an H/O/H system (interleaved species) (PBE, s/p projectors, triclinic cell): max component change {worst:.1e} Eh")
+        return Result(BOUNDED_OK, backend="native", detail=f"bounded: {n} random {self.kind.replace('_', ' ')}(s) of an H/O/H (permutation: C/O/C) system (interleaved species) (PBE, s/p projectors, triclinic cell): max component change {worst:.1e} Eh")
 
     def replay(self, wit):
         err, info = self.case(wit["seed"])
